@@ -1,6 +1,8 @@
 (* Pins for C13: restated statements + assumptions. Generated once by tools/mkpins.py, then committed. *)
 Require Import VT.Tac VT.ListN VT.Utf8 VT.Width VT.Attrs VT.Cell VT.Row VT.Grid VT.Screen VT.Vte VT.Perform VT.Parser VT.RowInv VT.GridInv VT.TextInv VT.ScreenInv VT.CellWf VT.WfGrid VT.WfVte VT.WfInv.
-Require Import VT.Props.C13.
+Require Import VT.Tac VT.ListN VT.Utf8 VT.Width VT.Attrs VT.Cell VT.Row VT.Grid VT.Screen VT.Vte VT.Perform VT.Parser.
+Require Import VT.RowInv VT.GridInv VT.TextInv VT.ScreenInv VT.PrintSpec VT.ResizeSpec VT.PendingSpec.
+Require Import VT.Props.C13 VT.Props.C13b.
 Open Scope N_scope.
 Check C13_reachable : forall rows cols cap rz ops,
   1 <= rows <= MAXDIM -> 1 <= cols <= MAXDIM -> Forall op_ok ops ->
@@ -41,3 +43,117 @@ Check C13_cell_wf_meaning : forall c, cell_wf c ->
   text_len (ctext c) <= 22 /\
   Forall (fun z => is_scalar z = true) (ctext c).
 Print Assumptions C13_cell_wf_meaning.
+Check C13b_print_keeps_meaning : forall cols c,
+  print_keeps cols c <->
+  ((128 <= c < 160)                      
+   \/ c = 65533                          
+   \/ (wd c = None /\ c < 256)           
+   \/ wd c = Some 0                      
+   \/ cols < cwidth c).
+Print Assumptions C13b_print_keeps_meaning.
+Check C13b_printed_last_meaning : forall s s' c,
+  printed_last s s' c <->
+  (~ (128 <= c < 160) /\ c <> 65533 /\ altmode s' = altmode s /\
+   1 <= cwidth c <= 2 /\ gcols (cur s') = gcols (cur s) /\ pcol (cur s') = gcols (cur s') /\
+   (
+    (pcol (cur s) + cwidth c = gcols (cur s) /\ prow (cur s') = prow (cur s)) \/
+    
+    (gcols (cur s) < pcol (cur s) + cwidth c /\ cwidth c = gcols (cur s) /\ prow (cur s') = wrap_row (cur s))) /\
+   
+   drawing_cell (cur s') (prow (cur s')) (gcols (cur s') - cwidth c) = Some (glyph c (pen s)) /\
+   (cwidth c = 2 -> drawing_cell (cur s') (prow (cur s')) (gcols (cur s') - 1) = Some cont_cell)).
+Print Assumptions C13b_printed_last_meaning.
+Check C13b_csi_moves_col_meaning : forall c,
+  csi_moves_col c <-> (c = 67 \/ c = 68 \/ c = 69 \/ c = 70 \/ c = 71 \/ c = 72 \/ c = 114).
+Print Assumptions C13b_csi_moves_col_meaning.
+Check C13b_col_keeper_meaning : forall cols,
+  (forall c, col_keeper cols (APrint c) <-> print_keeps cols c) /\
+  (forall b, col_keeper cols (AExecute b) <-> (b <> 8 /\ b <> 9 /\ b <> 13)) /\             
+  (forall ps ig c, col_keeper cols (ACsi ps [] ig c) <-> ~ csi_moves_col c) /\
+  (forall ps i rest ig c, col_keeper cols (ACsi ps (i :: rest) ig c) <->
+                          (i = 63 -> c = 104 \/ c = 108 -> ~ In [6] ps)) /\                 
+  (forall ig b, col_keeper cols (AEsc [] ig b) <-> (b <> 56 /\ b <> 99)) /\                 
+  (forall i rest ig b, col_keeper cols (AEsc (i :: rest) ig b)) /\
+  (forall ps bell, col_keeper cols (AOsc ps bell)) /\
+  (forall ps inter ig c, col_keeper cols (AHook ps inter ig c)) /\
+  (forall b, col_keeper cols (APut b)) /\ col_keeper cols AUnhook.
+Print Assumptions C13b_col_keeper_meaning.
+Check C13b_pending_only_by_print : forall rz s a s' evs,
+  screen_ok s -> perform rz s a = Ok (s', evs) -> pcol (cur s') = gcols (cur s') ->
+  gcols (cur s') = gcols (cur s) /\
+  ( (pcol (cur s) = gcols (cur s) /\ altmode s' = altmode s /\ col_keeper (gcols (cur s)) a)
+    \/ (exists c, a = APrint c /\ printed_last s s' c)
+    \/ (exists ig, a = AEsc [] ig 56 /\ altmode s' = altmode s /\ spcol (cur s) = gcols (cur s))
+    \/ (exists ps i ig, a = ACsi ps (63 :: i) ig 108 /\ In [1049] ps /\ altmode s' = false /\
+                        spcol (g s) = gcols (g s))
+    \/ (exists ps i ig, a = ACsi ps (63 :: i) ig 108 /\ In [47] ps /\ altmode s = true /\ altmode s' = false /\
+                        pcol (g s) = gcols (g s))
+    \/ (exists ps i ig, a = ACsi ps (63 :: i) ig 104 /\ In [47] ps /\ altmode s = false /\ altmode s' = true /\
+                        pcol (alt s) = gcols (alt s)) ).
+Print Assumptions C13b_pending_only_by_print.
+Check C13b_col_fixed_meaning : forall cols,
+  (forall c, col_fixed cols (APrint c) <-> print_keeps cols c) /\
+  (forall b, col_fixed cols (AExecute b) <-> (b <> 8 /\ b <> 9 /\ b <> 13)) /\
+  (forall ps ig c, col_fixed cols (ACsi ps [] ig c) <-> (~ csi_moves_col c /\ c <> 116)) /\
+  (forall ps i rest ig c, col_fixed cols (ACsi ps (i :: rest) ig c) <->
+                          (i = 63 -> c = 104 \/ c = 108 -> ~ In [6] ps /\ ~ In [47] ps /\ ~ In [1049] ps)) /\
+  (forall ig b, col_fixed cols (AEsc [] ig b) <-> (b <> 56 /\ b <> 99)) /\
+  (forall i rest ig b, col_fixed cols (AEsc (i :: rest) ig b)) /\
+  (forall ps bell, col_fixed cols (AOsc ps bell)) /\
+  (forall ps inter ig c, col_fixed cols (AHook ps inter ig c)) /\
+  (forall b, col_fixed cols (APut b)) /\ col_fixed cols AUnhook.
+Print Assumptions C13b_col_fixed_meaning.
+Check C13b_col_fixed_keeps : forall rz s a s' evs,
+  screen_ok s -> perform rz s a = Ok (s', evs) -> col_fixed (gcols (cur s)) a ->
+  altmode s' = altmode s /\ pcol (cur s') = pcol (cur s) /\ gcols (cur s') = gcols (cur s).
+Print Assumptions C13b_col_fixed_keeps.
+Check C13b_pending_kept : forall rz s a s' evs,
+  screen_ok s -> perform rz s a = Ok (s', evs) -> col_fixed (gcols (cur s)) a ->
+  pcol (cur s) = gcols (cur s) -> pcol (cur s') = gcols (cur s').
+Print Assumptions C13b_pending_kept.
+Check C13b_col_mover_meaning :
+  (forall b, col_mover (AExecute b) <-> (b = 8 \/ b = 9 \/ b = 13)) /\                        
+  (forall ps ig c, col_mover (ACsi ps [] ig c) <-> csi_moves_col c) /\
+  (forall ps i rest ig c, col_mover (ACsi ps (i :: rest) ig c) <->
+     (i = 63 /\ (c = 104 \/ c = 108) /\ In [6] ps /\ ~ In [47] ps /\ ~ In [1049] ps)) /\    
+  (forall ig b, col_mover (AEsc [] ig b) <-> b = 99).
+Print Assumptions C13b_col_mover_meaning.
+Check C13b_movers_not_pending : forall rz s a s' evs,
+  screen_ok s -> perform rz s a = Ok (s', evs) -> col_mover a -> pcol (cur s') < gcols (cur s').
+Print Assumptions C13b_movers_not_pending.
+Check C13b_ris_not_pending : forall s s', screen_ok s -> scr_ris s = Ok s' ->
+  altmode s' = false /\ pcol (cur s') = 0 /\ gcols (cur s') = gcols (cur s) /\ pcol (cur s') < gcols (cur s').
+Print Assumptions C13b_ris_not_pending.
+Check C13b_resize_request_not_pending : forall rz s ps ig s' evs,
+  screen_ok s -> perform rz s (ACsi ps [] ig 116) = Ok (s', evs) ->
+  s' = s \/
+  (rz = true /\ exists r c, 1 <= r /\ 1 <= c /\ screen_set_size s r c = Ok s' /\
+                            pcol (cur s') < gcols (cur s') /\ spcol (cur s') < gcols (cur s')).
+Print Assumptions C13b_resize_request_not_pending.
+Check C13b_set_size_not_pending : forall s r c s', screen_ok s -> 1 <= r -> 1 <= c ->
+  screen_set_size s r c = Ok s' ->
+  gcols (g s') = c /\ gcols (alt s') = c /\
+  pcol (g s') < gcols (g s') /\ spcol (g s') < gcols (g s') /\
+  pcol (alt s') < gcols (alt s') /\ spcol (alt s') < gcols (alt s') /\
+  pcol (cur s') < gcols (cur s') /\ spcol (cur s') < gcols (cur s').
+Print Assumptions C13b_set_size_not_pending.
+Check C13b_print_to_last_col_pending : forall rz s c,
+  screen_ok s -> ~ (128 <= c < 160) -> c <> REPL -> ~ (wd c = None /\ c < 256) ->
+  1 <= cwidth c -> pcol (cur s) + cwidth c = gcols (cur s) ->
+  exists s', perform rz s (APrint c) = Ok (s', []) /\
+             pcol (cur s') = gcols (cur s') /\ prow (cur s') = prow (cur s) /\ altmode s' = altmode s /\
+             printed_last s s' c.
+Print Assumptions C13b_print_to_last_col_pending.
+Check C13b_print_ascii_last_col_pending : forall rz s c,
+  screen_ok s -> 32 <= c < 127 -> pcol (cur s) + 1 = gcols (cur s) ->
+  exists s', perform rz s (APrint c) = Ok (s', []) /\
+             pcol (cur s') = gcols (cur s') /\ prow (cur s') = prow (cur s) /\
+             drawing_cell (cur s') (prow (cur s')) (gcols (cur s') - 1) = Some (glyph c (pen s)).
+Print Assumptions C13b_print_ascii_last_col_pending.
+Check C13b_pending_is_not_occupancy :
+  probe [97; 98; 99] = Ok (3, 0, 3, Some (glyph 99 dflt)) /\                        
+  probe [97; 98; 99; 27; 91; 50; 75] = Ok (3, 0, 3, Some (blank dflt)) /\           
+  probe [10; 97; 98; 99; 27; 91; 65] = Ok (3, 0, 3, Some (blank dflt)) /\           
+  probe [97; 98; 99; 13] = Ok (0, 0, 3, Some (glyph 99 dflt)) /\                    
+  probe [97; 98; 99; 27; 55; 13; 27; 56] = Ok (3, 0, 3, Some (glyph 99 dflt)).
+Print Assumptions C13b_pending_is_not_occupancy.
